@@ -12,7 +12,12 @@ records; its decoded manifest is compared field by field with the model's `key`,
 real fingerprints (sha256 of the manifest) with the collision relation of the model keys.
 Tie B-E (the property's direct check): edit/rebuild histories over generated multi-package modules with a private
 cache directory per history; after every step the program built through the cache must print what a clean build
-(fresh cache) of the current inputs prints.  Twice-built IR (-gen-llfiles, two fresh caches) is byte-compared."""
+(fresh cache) of the current inputs prints.  Twice-built IR (-gen-llfiles, two fresh caches) is byte-compared.
+Tie B-O (artifacts): generated (link arguments, NeedRt, NeedPyInit, archive bytes) through the REAL saveToCache + tryLoadFromCache;
+spec = identity (Props roundtrip_necessary: anything else makes the no-op rebuild differ from the clean build); the Lean model's
+loadArtifact (storeArtifact a) answers the same request.  Tie B-I (entry module): generated programs compiled repeatedly through
+the ssa API, type list requested as genMainModule does (real filterAbiSymbol): spec = byte-identical IR every time; the emitted
+order must be the model's abiTypeNames (abiTypeNames_listing: THE strictly increasing listing of the selected descriptors)."""
 import copy
 import difflib
 import glob
@@ -498,6 +503,140 @@ def correspondence(ctx, harness, modeld, hello, n_bases, n_mut, cfg):
     stats["field_mismatch"], stats["real_coarser"], stats["real_finer"] = len(field_mm), len(coarser), len(finer)
     sample = {"request": model_lines[0][:400], "real": real[0][:400], "model": model[0][:400]}
     return stats, field_mm, coarser, finer, len(nontrivial), sample
+
+
+# ------------------------------------------------------------------------------------------ in-process ties: type list, metadata
+REFLECT_BITS = {"ArrayOf": 1, "ChanOf": 2, "FuncOf": 4, "MapOf": 8, "PointerTo": 16, "SliceOf": 32, "StructOf": 64, "MethodByIndex": 128,
+                "MethodByName": 256, "MethodDynamic": 512}
+
+
+def gen_abitypes_requests(rng, quick):
+    """(n struct types, seed, reflect-usage mask (-1: no filter), repetitions, shape bits 1 map / 2 chan / 4 func)"""
+    reqs = [(6, 1, -1, 4, 0), (6, 1, 1023, 6, 7), (3, 2, 16 | 64, 4, 0)]
+    for _ in range(12 if quick else 120):
+        k = rng.randrange(1, 4)
+        mask = 0
+        for b in rng.sample(sorted(REFLECT_BITS.values()), k):
+            mask |= b
+        reqs.append((rng.randrange(2, 8), rng.randrange(1000), rng.choice([mask, mask, 1023, -1]), 4, rng.randrange(8)))
+    return reqs
+
+
+def abitypes_tie(ctx, harness, modeld, quick):
+    dec = lambda l: [] if l in (".", "") else [unhexs(x).decode("utf-8", "replace") for x in l.split(",")]
+    areq = gen_abitypes_requests(ctx.rng, quick)
+    aout, _, aerr = run_lines([harness], ["abitypes %d %d %d %d %d" % r for r in areq], cwd=os.path.dirname(harness), env=go_env())
+    aout = aout + ["(no answer) " + aerr[-300:]] * (len(areq) - len(aout))
+    stats = {"programs": len(areq), "compilations": sum(r[3] for r in areq), "selected_descriptors": [], "symbols": [], "differences": 0,
+             "order_vs_model_compared": 0, "order_vs_model_mismatch": 0}
+    broken = []
+    parsed = []
+    for r, o in zip(areq, aout):
+        f = o.split()
+        kv = dict(t.split("=", 1) for t in f if "=" in t)
+        if o.startswith("ok ") and "order" in kv and "syms" in kv:
+            parsed.append((r, "ok", kv, [kv["order"]]))
+        elif o.startswith("differs ") and "syms" in kv and len(f) >= 6:
+            parsed.append((r, f[1], kv, [f[4], f[5]]))
+        else:
+            broken.append("abitypes request %s: %s" % (r, o[:300]))
+    model = model_lines_run(modeld, (True, True), ["abitypes " + kv["syms"] for _, _, kv, _ in parsed]) if parsed else []
+    for (r, what, kv, orders), m in zip(parsed, model):
+        req = "abitypes %d %d %d %d %d" % r
+        syms = [] if kv["syms"] == "." else [t.split(":") for t in kv["syms"].split(",")]
+        selected = sorted(unhexs(h).decode("utf-8", "replace") for h, b in syms if b == "1")
+        stats["selected_descriptors"].append(len(selected))
+        stats["symbols"].append(len(syms))
+        want = dec(m[3:]) if m.startswith("ok ") else None
+        if want is None:
+            broken.append("modeld_c13 rejected `abitypes` for request %s: %s" % (r, m[:200]))
+        meaning = ("n struct types (struct, *struct, []struct, [k]struct and, per shape bit, map/chan/func over it, boxed into interfaces), seed, "
+                   "reflect-usage mask passed to the real filterAbiSymbol (-1: no filter), repetitions, shape bits")
+        if what != "ok":
+            # SPEC failure: the same program compiled again gives another module
+            stats["differences"] += 1
+            ctx.report("repro:entry-module-type-list", "compiling the same generated program again (build #%s) emits a different %s module: the runtime type "
+                       "descriptors of init$abitypes$array come in another order (%d descriptors pass the filter)" % (kv.get("build"), what, len(selected)),
+                       {"request": req, "meaning": meaning, "selected_descriptors": len(selected), "order_build_1": dec(orders[0])[:40],
+                        "order_build_k": dec(orders[1])[:40], "listing_per_lean_spec_abiTypeNames": (want or [])[:40],
+                        "how": "harness/c13 line protocol (run in the harness directory): VerifEntryModule in the ssa overlay"})
+            continue
+        got = dec(orders[0])
+        stats["order_vs_model_compared"] += 1
+        if want is not None and got != want:
+            stats["order_vs_model_mismatch"] += 1
+            if set(got) == set(want) and len(got) == len(want):
+                d = "the same descriptors in another order: real %s..., model (sorted by name) %s..." % (got[:4], want[:4])
+            else:
+                d = "other descriptors: only real %s, only model %s" % (sorted(set(got) - set(want))[:4], sorted(set(want) - set(got))[:4])
+            broken.append("entry-module type list differs from the model's abiTypeNames on `%s` (%d selected): %s" % (req, len(selected), d))
+    return stats, broken
+
+
+LINK_TOKENS = ["-lm", "-lfoo", "-lbar", "-lz", "-Xlinker", "--defsym=ext_a=11", "--defsym=ext_b=22", "-framework", "CoreFoundation", "Security", "-L", "d1", "d2",
+               "-l", "a", "b", "-L/opt/x y", "-Wl,-rpath,/a", "-Wl,--start-group", "-Wl,--end-group", "-pthread", "true", "null", "~", "1", "-", "k: v", "#c", "'q'",
+               "é", "[x]", "{y}", "a,b", "*", "&r", "!t", "%p", "@f", "`", '"dq"', "0x10", "1e3", "no", ".5"]
+
+
+def gen_metadata_requests(rng, quick):
+    """(need_rt, need_pyinit, link args, archive bytes)"""
+    fixed = [[], ["-lm"], ["-L/opt/x y", "-lfoo", "-Wl,-rpath,/a"],
+             # order AND multiplicity matter on a link line
+             ["-Xlinker", "--defsym=ext_a=11", "-Xlinker", "--defsym=ext_b=22"], ["-lfoo", "-lbar", "-lfoo"],
+             ["-framework", "CoreFoundation", "-framework", "Security"], ["-L", "d1", "-l", "a", "-L", "d2", "-l", "b"],
+             ["-lz", "-lz"], ["-lb", "-la"], ["-Wl,--start-group", "-la", "-lb", "-la", "-Wl,--end-group"]]
+    reqs = []
+    for la in fixed:
+        for rt in (0, 1):
+            for py in (0, 1):
+                reqs.append((rt, py, la, b"!<arch>\n"))
+    for _ in range(300 if quick else 3000):
+        n = rng.choice([0, 1, 2, 3, 4, 6, 9])
+        pool = rng.sample(LINK_TOKENS, rng.randrange(1, 5))       # a small pool makes repetitions likely
+        la = [rng.choice(pool) for _ in range(n)]
+        ar = bytes(rng.randrange(256) for _ in range(rng.choice([0, 1, 8, 8, 64, 300])))
+        reqs.append((rng.randrange(2), rng.randrange(2), la, ar))
+    return reqs
+
+
+def metadata_tie(ctx, harness, modeld, quick):
+    mreq = gen_metadata_requests(ctx.rng, quick)
+    lines = ["meta %d %d %s %s" % (rt, py, hlist(la), hx(ar)) for rt, py, la, ar in mreq]
+    mout, _, merr = run_lines([harness], lines)
+    mout = mout + ["(no answer)"] * (len(mreq) - len(mout))
+    model = model_lines_run(modeld, (True, True), lines)
+    broken = []
+    seen_la = set()
+    for (rt, py, la, ar), line, o, m in zip(mreq, lines, mout, model):
+        spec = "ok hit=true %d %d %s" % (rt, py, hlist(la))
+        if m != spec + " " + hx(ar):
+            broken.append("model: loadArtifact (storeArtifact a) is not `a` on `%s`: %s" % (line[:200], m[:200]))
+        if o == spec + " " + hashlib.sha256(ar).hexdigest():
+            continue
+        if tuple(la) in seen_la or len(seen_la) >= 4:
+            continue          # one replay per link-argument list, four lists: the cause is usually one
+        seen_la.add(tuple(la))
+        f = o.split()
+        got_args = None
+        if len(f) >= 5 and f[0] == "ok":
+            got_args = [] if f[4] == "." else [unhexs(x).decode("utf-8", "replace") for x in f[4].split(",")]
+        what = []
+        if got_args is not None and got_args != la:
+            what.append("link arguments %s came back as %s" % (la, got_args))
+        if len(f) >= 4 and f[0] == "ok" and (f[2], f[3]) != (str(rt), str(py)):
+            what.append("need_rt/need_pyinit %d/%d came back as %s/%s" % (rt, py, f[2], f[3]))
+        if len(f) >= 6 and f[5] != hashlib.sha256(ar).hexdigest():
+            what.append("the archive file handed to the linker does not hold the bytes that were stored")
+        if len(f) >= 2 and f[1] != "hit=true":
+            what.append("the package just stored is not found")
+        ctx.report("cache:metadata-roundtrip:%d:%d:%s" % (rt, py, hlist(la)),
+                   "saveToCache followed by tryLoadFromCache does not return what was stored (a rebuild that takes the package from the cache links "
+                   "differently from the clean build): %s" % ("; ".join(what) or "answer `%s`" % o[:200]),
+                   {"request": line, "stored": {"need_rt": rt, "need_pyinit": py, "link_args": la, "archive_sha256": hashlib.sha256(ar).hexdigest()},
+                    "answer": o, "read_back_link_args": got_args, "lean_model_loadArtifact_storeArtifact": m, "stderr": merr[-500:],
+                    "how": "harness/c13 line protocol: `meta <need_rt> <need_pyinit> <link args, hex list> <archive bytes, hex>`; VerifMetaRoundTrip in the "
+                           "overlay runs the real saveToCache, then the real tryLoadFromCache on a fresh package record with the same fingerprint"})
+    return mreq, broken
 
 
 # ------------------------------------------------------------------------------------------ e2e modules and histories (tie B-E)
@@ -1200,44 +1339,19 @@ def run(ctx, args):
             broken.append("crosscompile.Use CCFLAGS for level %d: real %s, model %s" % (i, out[1 + i], use_model[i]))
     # ---- reproducibility, in process: the same generated program compiled several times through the ssa API, then the entry
     # module's runtime-type list requested the way internal/build genMainModule does (InitAbiTypesFor + the real
-    # filterAbiSymbol; -1 = unfiltered): entry module and user package IR must be byte-identical every time.  (Programs
-    # that make llgo emit this list use reflect.StructOf/PointerTo/Method..., which cannot be built end to end here.)
-    areq = [(6, 1, -1, 4), (6, 1, 4095, 6)] + [(ctx.rng.randrange(2, 8), ctx.rng.randrange(1000), ctx.rng.choice([4095, 1 << 4 | 1 << 6, 1 << 5, 1 | 1 << 6, 4095]), 4)
-                                              for _ in range(3 if quick else 40)]
-    aout, _, aerr = run_lines([harness], ["abitypes %d %d %d %d" % r for r in areq], cwd=os.path.dirname(harness), env=go_env())
-    abistats = {"programs": len(areq), "compilations": sum(r[3] for r in areq), "selected_descriptors": [], "differences": 0}
-    for r, o in zip(areq, aout + ["(no answer) " + aerr[-300:]] * (len(areq) - len(aout))):
-        if o.startswith("ok "):
-            abistats["selected_descriptors"].append(int(o.split()[1].split("=")[1]))
-        elif o.startswith("differs "):
-            abistats["differences"] += 1
-            f = o.split()
-            dec = lambda l: [] if l == "." else [unhexs(x).decode("utf-8", "replace") for x in l.split(",")]
-            ctx.report("repro:entry-module-type-list", "compiling the same generated program again (build #%s) emits a different %s module: the runtime type "
-                       "descriptors of init$abitypes$array come in another order" % (f[2].split("=")[1], f[1]),
-                       {"request": "abitypes %d %d %d %d" % r, "meaning": "n struct types (struct, *struct, []struct, [k]struct boxed into interfaces), seed, "
-                        "reflect-usage mask passed to the real filterAbiSymbol, repetitions", "selected_descriptors": f[3], "order_build_1": dec(f[4])[:40],
-                        "order_build_k": dec(f[5])[:40], "how": "harness/c13 line protocol (run in the harness directory): VerifEntryModule in the ssa overlay"})
-        else:
-            broken.append("abitypes request %s: %s" % (r, o[:300]))
-    # ---- tie B-O (1b): the metadata stored next to an archive (need_rt, need_pyinit, link args) comes back unchanged:
-    # real saveToCache followed by real tryLoadFromCache on a fresh package record with the same fingerprint
-    mreq = []
-    for rt in (0, 1):
-        for py in (0, 1):
-            for la in ([], ["-lm"], ["-L/opt/x y", "-lfoo", "-Wl,-rpath,/a"], [rword(ctx.rng) or "-lz" for _ in range(3)],
-                       # order AND multiplicity matter on a link line
-                       ["-Xlinker", "--defsym=ext_a=11", "-Xlinker", "--defsym=ext_b=22"], ["-lfoo", "-lbar", "-lfoo"],
-                       ["-framework", "CoreFoundation", "-framework", "Security"], ["-L", "d1", "-l", "a", "-L", "d2", "-l", "b"],
-                       ["-lz", "-lz"], ["-lb", "-la"], [ctx.rng.choice(["-lm", "-Xlinker", "x", "-lm"]) for _ in range(6)]):
-                mreq.append((rt, py, la))
-    mout, _, merr = run_lines([harness], ["meta %d %d %s" % (rt, py, hlist(la)) for rt, py, la in mreq])
-    for (rt, py, la), o in zip(mreq, mout + ["(no answer)"] * (len(mreq) - len(mout))):
-        if o != "ok hit=true %d %d %s" % (rt, py, hlist(la)):
-            ctx.report("cache:metadata-roundtrip:%d:%d:%s" % (rt, py, hlist(la)),
-                       "saveToCache followed by tryLoadFromCache does not return the stored metadata: stored need_rt=%d need_pyinit=%d link_args=%s, got `%s`"
-                       % (rt, py, la, o), {"request": "meta %d %d %s" % (rt, py, hlist(la)), "answer": o, "stderr": merr[-500:],
-                                           "how": "harness/c13 line protocol, VerifMetaRoundTrip in the overlay"})
+    # filterAbiSymbol; -1 = unfiltered): entry module and user package IR must be byte-identical every time (the SPEC, judged
+    # on the real output alone).  Correspondence: the order in which the real code lists the descriptors must be what the
+    # Lean model `abiTypeNames` makes of the same symbol table (as one `range prog.abiSymbol` delivered it) and the same
+    # filter verdicts - `abiTypeNames_listing`: THE strictly increasing listing of the selected set.  (Programs that make llgo
+    # emit this list use reflect.StructOf/PointerTo/Method..., which cannot be built end to end here.)
+    abistats, abibroken = abitypes_tie(ctx, harness, modeld, quick)
+    broken += abibroken
+    # ---- tie B-O (1b): what the cache keeps of a compiled package besides its fingerprint - the archive bytes and the
+    # metadata (need_rt, need_pyinit, link args) - comes back unchanged: real saveToCache followed by real tryLoadFromCache on
+    # a fresh package record with the same fingerprint.  SPEC: identity (`roundtrip_necessary`: anything else makes the no-op
+    # rebuild differ from the clean build).  Correspondence: the Lean model's `loadArtifact (storeArtifact a)` on the same input.
+    mreq, metabroken = metadata_tie(ctx, harness, modeld, quick)
+    broken += metabroken
     # ---- which variant of the fingerprint code is this tree?  (Model/Cache.lean mirrors both: Cfg)
     cfg = probe_variant(harness, hello)
     ctx.log("fingerprint variant of the working tree: contentHash=%s ccflagsEnv=%s (%s)" % (cfg[0], cfg[1],
